@@ -86,7 +86,7 @@ func verifModel_ScalarMult(p *SM2P256Point, q *SM2P256Point, scalar []byte) (*SM
 
 func verifModel_Add(q *SM2P256Point, p1, p2 *SM2P256Point) *SM2P256Point {
 	x1, y1, x2, y2 := verifElemBytes(&p1.x), verifElemBytes(&p1.y), verifElemBytes(&p2.x), verifElemBytes(&p2.y)
-	inf := verifBool("add.inf") // the sum may be the point at infinity (opaque)
+	inf := verifUF("A.inf", 1, x1, y1, x2, y2)[0]&1 == 1 // the sum may be the point at infinity (an opaque function of the operands)
 	verifSetPoint(q, verifUF("A.x", 32, x1, y1, x2, y2), verifUF("A.y", 32, x1, y1, x2, y2), inf)
 	return q
 }
@@ -151,5 +151,5 @@ func verifModel_P256OrdMul(in1, in2 []byte) ([]byte, error) {
 	if len(in1) != 32 || len(in2) != 32 {
 		return nil, errors.New("invalid scalar length")
 	}
-	return verifUF("fn.mul", 32, in1, in2), nil
+	return verifUF("fn.mul.comm", 32, in1, in2), nil
 }
